@@ -224,3 +224,36 @@ def collect_bset(it, itr):
     s = BSet()
     for k in rest(materialize(it, itr)): bs_insert(it, Ref(Box_(s)), k)
     return s
+
+# ---------------------------------------------------------------- HashSet (unordered: iteration order as for HashMap)
+class HSet(HMap):
+    """items are [key, None]"""
+_HS = r'std::collections::HashSet::<.*>::'
+reg(r'<std::collections::HashSet<.*> as std::default::Default>::default', lambda it: HSet())
+reg(_HS + r'(new|with_capacity|with_hasher|default)', lambda it, *a: HSet())
+reg(_HS + r'len', lambda it, m: len(deref_all(m).items))
+reg(_HS + r'is_empty', lambda it, m: len(deref_all(m).items) == 0)
+@model(_HS + r'insert')
+def hs_insert(it, mr, k):
+    m = deref_all(mr)
+    if find(it, m, k) is not None: return False
+    m.items.append([k, None]); return True
+@model(_HS + r'contains::<.*>')
+def hs_contains(it, mr, k): return find(it, deref_all(mr), k) is not None
+@model(_HS + r'remove::<.*>')
+def hs_remove(it, mr, k):
+    m = deref_all(mr); i = find(it, m, k)
+    if i is None: return False
+    m.items.pop(i); return True
+reg(_HS + r'iter', lambda it, mr: PyIter([Ref(_r(mr).box, _r(mr).path + (i, 0)) for i in order(it, deref_all(mr))]))
+def hs_into_iter(self, it, x):
+    if isinstance(x, Ref):
+        r = root_ref(x)
+        return PyIter([Ref(r.box, r.path + (i, 0)) for i in order(it, self)])
+    return PyIter([self.items[i][0] for i in order(it, self)])
+HSet.into_iter = hs_into_iter
+@model(r'<.* as std::iter::Iterator>::collect::<std::collections::HashSet<.*>>')
+def collect_hset(it, itr):
+    m = HSet()
+    for k in rest(materialize(it, itr)): hs_insert(it, Ref(Box_(m)), k)
+    return m
